@@ -116,6 +116,58 @@ CLAIMED['C12'] = dict(
     technique='contract-based deductive verification: totality contracts, exception-escape obligations, loop variants, '
               'typestate of blocking calls, z3/cvc5')
 
+LOOPNOTE = ('per-iteration clauses are machine-checked for an arbitrary iteration from an arbitrary state satisfying the '
+            'invariants; the step from "every iteration does X for its element" to the statement about the whole '
+            'sequence is the standard induction over iterations (trusted schema); loop frame pinned by invariants; ')
+
+CLAIMED['C09'] = dict(
+    text='Deductive proof with loop rules: the real AssociationAcceptor.accept on an arbitrary A-ASSOCIATE-RQ in standard '
+         'item order (any number of presentation contexts, each proposing any number of transfer syntaxes) against an '
+         'arbitrary configuration (uninterpreted predicates served / supported_ts). Outer loop, arbitrary iteration: '
+         'exactly one answer appended at the end, with the proposed id; acceptance iff abstract syntax served and some '
+         'proposed transfer syntax supported (ALL-fold over the proposal with ghost prefix of syntaxes passed over); the '
+         'accepted syntax is an element of the proposal and supported; routing tables written at that id iff accepted, '
+         'with the proposed abstract syntax and the reported transfer syntax. Inner loop: passing over changes nothing. '
+         'Exit path: one A-ASSOCIATE-AC repeating the AE titles, the application-context item and the user information '
+         '(object identity); the provider routes by the same table object. _loop: a message on context k reaches a '
+         'service iff k is in the SCP table and the class is served, with the table\'s context; else '
+         'ClassNotSupportedError.',
+    ref='4/C09',
+    note=TRUST + LOOPNOTE + 'constructors (sockets, thread) not executed: object state set as they leave it; proposed '
+         'ids pairwise distinct for the whole-table reading; lists of PDU items are hybrid lists (known elements keep '
+         'identity, symbolic segments between them)',
+    technique='contract-based deductive verification: loop invariants + ghost prefix, ALL-fold lemmas, symbolic '
+              'execution of the real accept/_loop, z3/cvc5')
+
+CLAIMED['C10'] = dict(
+    text='Deductive proof, all values: own (configured) and peer (announced) maximum lengths symbolic over {0} u '
+         '[7, 2^32-1]. accept and _request (real code, arbitrary request/reply around the Maximum Length sub-item): eff '
+         '<= peer when peer != 0, eff == own when peer == 0, eff in {0} u [7,..], announced value in [1, own] when own '
+         '!= 0; the loops of both functions keep eff and the announced value (invariants). Association.send hands eff and '
+         'the caller\'s context id to DIMSEMessage.encode; encode/fragment/fragment_file (C06 obligations, re-generated '
+         'here): every P-DATA-TF has pdu_length = len(fragment) + 6 <= eff (eff != 0), every byte is sent for every eff '
+         'in range (0 = unlimited).',
+    ref='4/C10',
+    note=TRUST + LOOPNOTE + 'announced values 1..6 (no room for a one-byte fragment) are outside the domain; receiving '
+         'with a configured maximum of 0 (socket.recv(0)) is not part of this property',
+    technique='contract-based deductive verification: linear-integer postconditions on the real negotiation code, '
+              'loop invariants, z3/cvc5')
+
+CLAIMED['C06'] = dict(
+    text='Deductive proof with loop invariants, all stream lengths and all maximum lengths in {0} u [7, 2^32-1]: '
+         'fragment (range loop over positions) and fragment_file (read loop, variant |remaining|): invariant `fragments so '
+         'far ++ rest of stream == stream`, each step yields exactly one fragment = the next 1..max-6 bytes flagged last iff '
+         'nothing follows, `last seen <=> at end and something sent`; at exit everything was sent and a non-empty stream '
+         'ended with its single last fragment. DIMSEMessage.encode as a pipeline over those generators (no data set / bytes '
+         '/ file): every yielded PDU wraps exactly one fragment in one PDV on the message context, value = control byte ++ '
+         'fragment, pdu_length = len + 6 <= max; command codes 1/3, data codes 0/2; command stream complete before data; '
+         'both streams completed; file closed. Association.send: set_length, then queue encode(pc_id, negotiated max).',
+    ref='4/C06',
+    note=TRUST + LOOPNOTE + 'dsutils.encode(command set) is an arbitrary byte string (content is C08); BytesIO model of '
+         'file data sets; "identical for bytes and file" = both satisfy the same content contract',
+    technique='contract-based deductive verification: loop invariants over byte-sequence concatenation, generator '
+              'pipeline with ghost yield trace, z3/cvc5')
+
 NOT_YET = {
 }
 
